@@ -337,9 +337,37 @@ class Atomizer:
                     self.axioms.append(T.implies(T.eq(ri, T.neg(rj)),
                                                  T.and_(T.eq(tab[i][0], tab[j][0]), T.eq(tab[i][1], T.neg(tab[j][1])))))
 
+    def _linear_relations(self):
+        """a linear relation between angle (or hyperbolic-argument) variables that occurs in the query as a plain equality,
+        k1 x1 + ... + kn xn = 0 (typically a path condition such as `a + b + c == 0` tested by a merge rule), implies
+        the corresponding relation between their atoms: the product of the rotations is the identity.  (Two-variable
+        relations are already covered by the congruence axioms.)"""
+        import math as _m
+        for t in T.subterms(self.out):
+            if t.op != "eq" or t.args[0].sort != "Real":
+                continue
+            d = T.sub(t.args[0], t.args[1])
+            if d.op != "add" or len(d.args) < 3 or d.val[0] != 0 or not all(a.op == "var" and a is not T.PI for a in d.args):
+                continue
+            for tab, Ls, mulf in ((self.trig_vars, self.trigL, _cmul), (self.hyp_vars, self.hypL, _hmul)):
+                if not all(a.id in tab for a in d.args):
+                    continue
+                ks = [c * Ls.get(a.id, 1) for c, a in zip(d.val[1], d.args)]
+                den = 1
+                for k in ks:
+                    den = den * k.denominator // _m.gcd(den, k.denominator)
+                ks = [int(k * den) for k in ks]
+                if max(abs(k) for k in ks) > 8:
+                    continue
+                acc = (T.ONE, T.ZERO)
+                for k, a in zip(ks, d.args):
+                    acc = mulf(acc, _power(tab[a.id], k, mulf, _conj))
+                self.axioms.append(T.implies(t, T.and_(T.eq(acc[0], T.ONE), T.eq(acc[1], T.ZERO))))
+
     def _links(self):
         """relate a base variable that also occurs as a plain real to its atoms; bound pi"""
         self._congruence()
+        self._linear_relations()
         for _ in range(3):   # axioms may themselves introduce plain occurrences
             n_before = len(self.axioms)
             fv = {v.id for v in T.free_vars(self.out + self.axioms)}
